@@ -145,7 +145,7 @@ class SymDelta:
         return "timedelta(us=%s)" % v
 
     def __repr__(self):
-        return "SymDelta(%s)" % (self.e,)
+        return "SymDelta(#%d)" % self.e.get_id()
 
 
 class SymDay:
@@ -201,7 +201,7 @@ class SymDay:
         return str(EPOCH.date() + timedelta(days=int(v.as_long())))
 
     def __repr__(self):
-        return "SymDay(%s)" % (self.e,)
+        return "SymDay(#%d)" % self.e.get_id()
 
 
 class SymTime:
@@ -306,7 +306,7 @@ class SymTime:
             return str(v)
 
     def __repr__(self):
-        return "SymTime(%s)" % (self.label or self.e,)
+        return "SymTime(%s)" % (self.label or "#%d" % self.e.get_id(),)
 
     __str__ = __repr__
 
